@@ -20,8 +20,16 @@ def draw_layer_case(data, d_choices=(2, 2, 3), symmetric_only=False, unit_stride
     G = data.draw(st.sampled_from(list(groups)), label="G")
     M = data.draw(st.sampled_from([3, 3, 3, 2]), label="M")
     kmax = 2 if d == 2 else 1
-    in_sig = gen.draw_signature(data, d, kmax=kmax, min_types=1, max_types=3, cmax=3, distinct_channels=True)
-    out_sig = gen.draw_signature(data, d, kmax=kmax, min_types=1, max_types=3, cmax=3, distinct_channels=True)
+    # channel counts: pairwise distinct (the class the property names) or one common count for all types (the
+    # configuration in which a layer may take a fused "all blocks at once" path)
+    distinct = data.draw(st.sampled_from([True, True, False]), label="distinct_channels")
+    in_sig = gen.draw_signature(data, d, kmax=kmax, min_types=1, max_types=3, cmax=3, distinct_channels=distinct)
+    out_sig = gen.draw_signature(data, d, kmax=kmax, min_types=1, max_types=3, cmax=3, distinct_channels=distinct)
+    if not distinct:
+        cin = data.draw(st.integers(1, 3), label="c_in")
+        cout = data.draw(st.integers(1, 3), label="c_out")
+        in_sig = [[t, cin] for t, _ in in_sig]
+        out_sig = [[t, cout] for t, _ in out_sig]
     if M == 2:
         kinds = ["int", "explicit_sym"] + ([] if symmetric_only else ["explicit_asym"])
     else:
